@@ -161,14 +161,19 @@ def phase_grammar(ctx, only=None):
     ctx.cov["grammar"] = {"cases": len(table), **tot, "failures": sum(r["nfail"] for r in results)}
     ctx.log(f"grammar replay: {tot} failures={sum(r['nfail'] for r in results)}")
     report_failures(ctx, pools, fails, "grammar")
+    ctx.n_cases = res.distinct
+    return pools
+
+
+def finish_edit_graph(ctx):
+    th, box, ecfg = ctx.edit_thread
     th.join()
     eres = box.get("res")
     if eres is None:
         raise MachineryError("TLC run of the edit graph did not return")
     ctx.add_tlc(f"ObjGrammar[{ecfg}] one-field-edit graph; OtherSegsStable, TreeEditLocal, WellFormed, TreeSorted", eres)
-    if eres.distinct != res.distinct:
-        raise MachineryError(f"edit graph has {eres.distinct} states, case enumeration {res.distinct}")
-    return pools
+    if eres.distinct != ctx.n_cases:
+        raise MachineryError(f"edit graph has {eres.distinct} states, case enumeration {ctx.n_cases}")
 
 
 # ----------------------------------------------------------------------------- phase 2: life cycle
@@ -673,6 +678,7 @@ def run(ctx):
     phase_life_traces(ctx, traces)
     phase_fuzz(ctx)
     phase_git(ctx)
+    finish_edit_graph(ctx)
     ctx.cov["rule"] = ("grammar: one case per TLC state of ObjGrammar (all commits/tags within Hamming distance Radius of two "
                        "base cases over the field pools, all trees up to TreeMax entries over the ordering universe and all "
                        "legal modes, blob chunkings); each is built, serialised, named (SHA-1 and SHA-256), parsed and edited on "
